@@ -34,6 +34,9 @@ def corpus(wd, rng, tag, rows):
     for wname in ("wide", "wide2"):
         c.execute("CREATE TABLE %s(%s, PRIMARY KEY(%s_c3, %s_c1))" % (wname, ", ".join("%s_c%d %s" % (wname, j, ["INTEGER", "TEXT COLLATE NOCASE", "REAL DEFAULT 1.5", "BLOB", "TEXT DEFAULT 'a  b'"][j % 5]) for j in range(110)), wname, wname))
         c.execute("INSERT INTO %s(%s_c1, %s_c3) VALUES('x', x'00')" % (wname, wname, wname))
+    # definitions SQLite accepts and sqlittle's parser does not (a STRICT table, a generated column)
+    c.execute("CREATE TABLE st(a INT, b TEXT) STRICT")
+    c.execute("CREATE TABLE gen(a, b AS (a + 1))")
     c.execute("BEGIN")
     for i in range(60):
         c.execute("INSERT INTO uq VALUES(?,?,?,?)", (i, "b%d" % i, -i, i % 7))
@@ -68,6 +71,8 @@ def native_ops(rng, n, rows):
             texts = ["CREATE TABLE foo", "SELECT a FROM", "CREATE INDEX x ON", "CREATE TABLE w(%s)" % ", ".join("c%d TEXT DEFAULT '%d  %d'" % (j, j, rng.randrange(9)) for j in range(150)),
                      "CREATE TABLE v(%s, PRIMARY KEY(k3 COLLATE nocase)) WITHOUT ROWID" % ", ".join("k%d INTEGER" % j for j in range(200)), "CREATE TABLE s(a, b)"]
             ops.append(["parse", rng.choice(texts).encode().hex()])
+            ops.append(["def", rng.choice(["st", "gen", "small", "wide"])])
+            ops.append(["columns", rng.choice(["st", "gen"])])
             ops.append([rng.choice(["columns", "select"]), rng.choice(["wide", "wide2"])] + (["*"] if ops[-1][0] == "parse" and False else []))
             if ops[-1][0] == "select":
                 ops[-1].append("*")
